@@ -1,6 +1,6 @@
 (* ApiF.v — correspondence entry points for C13.  Definitions only. *)
 From Coq Require Import ZArith List Bool.
-From Mpir Require Import Word DivDefs MpfDefs ApiBasic.
+From Mpir Require Import Word DivDefs MpfDefs ApiBasic MpfAddDefs.
 Import ListNotations.
 Local Open Scope Z_scope.
 
@@ -50,4 +50,11 @@ Definition api_mpf_mul : api := fun t =>
   let prec := argz t 0 in
   let mk (m e : Z) := mkf_norm (m <? 0) (Z.abs m) e in
   let r := mpf_mul prec (mk (argz t 1) (argz t 2)) (mk (argz t 3) (argz t 4)) in
+  [TZ (if fneg r then - fn r else fn r); TZ (fexp r); TZ (fM r)].
+
+(* bit-exact model of mpf_add (operands of the same sign): prec (limbs) um ue vm ve -> size exp mantissa *)
+Definition api_mpf_add_exact : api := fun t =>
+  let prec := argz t 0 in
+  let mk (m e : Z) := mkf_norm (m <? 0) (Z.abs m) e in
+  let r := mpf_add prec (mk (argz t 1) (argz t 2)) (mk (argz t 3) (argz t 4)) in
   [TZ (if fneg r then - fn r else fn r); TZ (fexp r); TZ (fM r)].
